@@ -8,7 +8,9 @@ Output lines:
 * `V case blk kind name ok|FAIL lhs rhs` — a relation of the PROPERTY (site balance, mass action incl. electrostatic
   term, charge–potential law, diffuse-layer neutrality, the same on the public read-outs); doubles as 16 hex digits
 * `T case blk kind name ok|FAIL a b` — a TIE relation: a number the code holds equals the model's recomputation
-  (psi-token coefficients, lm from rxn_x, f of a row, residual of a row, read-out = internal value) -/
+  (psi-token coefficients, lm from rxn_x, f of a row, residual of a row, read-out = internal value).  A tie on a SUM
+  (f of a charge row, sigma, plane charges, residuals) is judged with tolerance rel·Σ|terms| + floor: the net charge may be
+  a near-complete cancellation, whose last digits depend on the order of summation -/
 namespace Driver.Surface
 open PhreeqcVerif PhreeqcVerif.Util PhreeqcVerif.Surface
 
@@ -124,6 +126,7 @@ structure Block where
   aqz : Array (String × Float) := #[]                       -- charge of aqueous species from the database TEXT
   inC : Array (String × Float × Float × Float × Float) := #[]  -- first SURFACE block of the input: charge, area, grams, cap0, cap1
   inS : Array (String × Float) := #[]                       -- … site element, sites
+  inM0 : Float := 0.0                                       -- largest -m0 of a KINETICS reactant in the input text
 
 def fh (s : String) : Float := (floatOfHex s).getD (0.0 / 0.0)
 def sh (s : String) : String := (unhexStr s).getD "?"
@@ -365,7 +368,9 @@ def evalBlock (b : Block) (prev : Array (String × Float)) : Array String × Arr
       let rel := if c.phase != "" then findOut b "equi" else if c.rate != "" then findOut b "kin" else none
       match rel with
       | some m =>
-        let big := hist.foldl (fun a h => if h.1 == u.elt then Surface.maxv a h.2 else a) (Surface.maxv sum (c.prop * m))
+        -- reference scale: the largest site total of the run so far, incl. the initial one (proportion × -m0 of the input)
+        let big := hist.foldl (fun a h => if h.1 == u.elt then Surface.maxv a h.2 else a)
+          (Surface.maxv (Surface.maxv sum (c.prop * m)) (if c.rate != "" then c.prop * b.inM0 else 0.0))
         if b.state == 5 && m > b.minRel && u.moles > b.minRel then
           out := out.push (vline b "V" "site-related" u.elt (close 0.0 (((b.blk.toNat?.getD 0).toFloat + 2.0) * relTol * big) sum (c.prop * m)) sum (c.prop * m))
       | none => pure ()
@@ -444,6 +449,10 @@ def evalBlock (b : Block) (prev : Array (String × Float)) : Array String × Arr
         | none => false
       let q := mine.foldl (fun a sp => a + sp.z * sp.moles) 0.0
       let sigSp := sigmaOfCharge q c.area c.grams
+      -- scale of what is summed: the net charge can be a near-complete cancellation of positive and negative sites, so every
+      -- tie on a sum is judged with tolerance rel·Σ|terms| (summation-order roundoff), never relative to the net result
+      let qAbs := mine.foldl (fun a sp => a + (sp.z * sp.moles).abs) 0.0
+      let sigAbs := sigmaOfCharge qAbs c.area c.grams
       let qdl := b.aqs.foldl (fun a s => a + (s.g.foldl (fun a2 g => if g.1 == c.name then a2 + s.z * g.2 else a2) 0.0)) 0.0
       let qdlAbs := b.aqs.foldl (fun a s => a + (s.g.foldl (fun a2 g => if g.1 == c.name then a2 + (s.z * g.2).abs else a2) 0.0)) 0.0
       -- 4b. diffuse-layer COMPOSITION: the excess factor g(z) of every charge number and the moles of every species in
@@ -514,26 +523,26 @@ def evalBlock (b : Block) (prev : Array (String × Float)) : Array String × Arr
           | some v => out := out.push (vline b "T" "pub-psi" c.name (close 1e-13 1e-18 v psi) v psi)
           | none => pure ()
           if b.dltype == 0 then
-            out := out.push (vline b "T" "cb-f" c.name (close 1e-10 1e-22 cb.f q) cb.f q)
+            out := out.push (vline b "T" "cb-f" c.name (close 1e-10 (1e-12 * qAbs + 1e-22) cb.f q) cb.f q)
             let law := if b.stype == 2 then gcSigma b.epsr tk b.mu psi else ccmSigma c.cap0 psi
             out := out.push (vline b "V" (if b.stype == 2 then "gc" else "ccm") c.name (close relTol b.tol sigSp law) sigSp law)
             let r := if b.stype == 2 then residDDL b.epsr tk b.mu cb.masterLa cb.f c.area c.grams
                      else residCCM c.cap0 tk cb.masterLa cb.f c.area c.grams
-            out := out.push (vline b "T" "cb-res" c.name (close 1e-6 (1e-13 * (sigSp.abs + 1e-6)) cb.resid r) cb.resid r)
+            out := out.push (vline b "T" "cb-res" c.name (close 1e-6 (1e-12 * (sigAbs + law.abs) + 1e-19) cb.resid r) cb.resid r)
             match pubPsi, pubSig with
             | some pp, some ps =>
               let plaw := if b.stype == 2 then gcSigma pubEps pubTk pubMu pp else ccmSigma c.cap0 pp
               out := out.push (vline b "V" (if b.stype == 2 then "pub-gc" else "pub-ccm") c.name (close relTol b.tol ps plaw) ps plaw)
-              out := out.push (vline b "T" "pub-sigma" c.name (close 1e-10 1e-22 ps sigSp) ps sigSp)
+              out := out.push (vline b "T" "pub-sigma" c.name (close 1e-10 (1e-12 * sigAbs + 1e-22) ps sigSp) ps sigSp)
             | _, _ => pure ()
           else
             -- explicit diffuse layer: ion excess balances the surface charge
             let tot := q + qdl
             let ok := !(Row.dl c.grams tot).fails { env with tol := Surface.maxv b.tol (relTol * q.abs) }
             out := out.push (vline b "V" "dl-neutral" c.name ok qdl (-q))
-            out := out.push (vline b "T" "cb-f" c.name (close 1e-9 (1e-9 * (q.abs + qdlAbs) + 1e-22) cb.f tot) cb.f tot)
+            out := out.push (vline b "T" "cb-f" c.name (close 1e-9 (1e-9 * (qAbs + qdlAbs) + 1e-22) cb.f tot) cb.f tot)
             match pubSig with
-            | some ps => out := out.push (vline b "T" "pub-sigma" c.name (close 1e-10 1e-22 ps sigSp) ps sigSp)
+            | some ps => out := out.push (vline b "T" "pub-sigma" c.name (close 1e-10 (1e-12 * sigAbs + 1e-22) ps sigSp) ps sigSp)
             | none => pure ()
       else
         -- CD-MUSIC
@@ -544,6 +553,11 @@ def evalBlock (b : Block) (prev : Array (String × Float)) : Array String × Arr
           let f0 := mine.foldl (fun a sp => a + (dzOf sp).1 * sp.moles) 0.0
           let f1 := mine.foldl (fun a sp => a + (dzOf sp).2.1 * sp.moles) 0.0
           let f2 := mine.foldl (fun a sp => a + (dzOf sp).2.2 * sp.moles) 0.0
+          let f0Abs := mine.foldl (fun a sp => a + ((dzOf sp).1 * sp.moles).abs) 0.0
+          let f1Abs := mine.foldl (fun a sp => a + ((dzOf sp).2.1 * sp.moles).abs) 0.0
+          let f2Abs := mine.foldl (fun a sp => a + ((dzOf sp).2.2 * sp.moles).abs) 0.0
+          let scAbs := sites.foldl (fun a u => if chargeOfElt u.elt == c.name then a + (u.moles * u.zMaster).abs else a) 0.0
+          let toSig (x : Float) : Float := sigmaOfCharge x c.area c.grams
           let sc := sites.foldl (fun a u => if chargeOfElt u.elt == c.name then a + u.moles * u.zMaster else a) 0.0
           let aq := b.aqs.toList.map fun s => (under s.lm, s.z)
           let st := cdResiduals b.epsr tk c.area c.grams c.cap0 c.cap1 u0.masterLa u1.masterLa u2.masterLa f0 f1 f2 sc aq
@@ -552,19 +566,19 @@ def evalBlock (b : Block) (prev : Array (String × Float)) : Array String × Arr
           let psi2 := psiOfLaCD tk u2.masterLa
           out := out.push (vline b "V" "cd-plane0" c.name (close relTol b.tol st.sigma0 (c.cap0 * (psi0 - psi1))) st.sigma0 (c.cap0 * (psi0 - psi1)))
           out := out.push (vline b "V" "cd-plane1" c.name (close relTol b.tol (st.sigma0 + st.sigma1) (c.cap1 * (psi1 - psi2))) (st.sigma0 + st.sigma1) (c.cap1 * (psi1 - psi2)))
-          out := out.push (vline b "T" "cd-f0" c.name (close 1e-9 1e-20 u0.f f0) u0.f f0)
-          out := out.push (vline b "T" "cd-f1" c.name (close 1e-9 1e-20 u1.f f1) u1.f f1)
-          out := out.push (vline b "T" "cd-sigma0" c.name (close 1e-9 1e-20 c.s0 st.sigma0) c.s0 st.sigma0)
-          out := out.push (vline b "T" "cd-sigma1" c.name (close 1e-9 1e-20 c.s1 st.sigma1) c.s1 st.sigma1)
+          out := out.push (vline b "T" "cd-f0" c.name (close 1e-9 (1e-12 * f0Abs + 1e-22) u0.f f0) u0.f f0)
+          out := out.push (vline b "T" "cd-f1" c.name (close 1e-9 (1e-12 * f1Abs + 1e-22) u1.f f1) u1.f f1)
+          out := out.push (vline b "T" "cd-sigma0" c.name (close 1e-9 (1e-12 * toSig (f0Abs + scAbs) + 1e-22) c.s0 st.sigma0) c.s0 st.sigma0)
+          out := out.push (vline b "T" "cd-sigma1" c.name (close 1e-9 (1e-12 * toSig f1Abs + 1e-22) c.s1 st.sigma1) c.s1 st.sigma1)
           if b.dltype == 0 then
             out := out.push (vline b "V" "cd-plane2" c.name (close relTol b.tol (st.sigma0 + st.sigma1 + st.sigma2) (-st.sigmaddl)) (st.sigma0 + st.sigma1 + st.sigma2) (-st.sigmaddl))
-            out := out.push (vline b "T" "cd-f2" c.name (close 1e-9 1e-20 u2.f f2) u2.f f2)
-            out := out.push (vline b "T" "cd-res2" c.name (close 1e-5 (1e-12 * (st.sigmaddl.abs + 1e-6)) u2.resid st.r2) u2.resid st.r2)
+            out := out.push (vline b "T" "cd-f2" c.name (close 1e-9 (1e-12 * f2Abs + 1e-22) u2.f f2) u2.f f2)
+            out := out.push (vline b "T" "cd-res2" c.name (close 1e-5 (1e-12 * (toSig (f0Abs + scAbs + f1Abs + f2Abs) + st.sigmaddl.abs) + 1e-19) u2.resid st.r2) u2.resid st.r2)
           else
             let r2 := residCD2DL (f2 + qdl) st.sigma0 st.sigma1 c.area c.grams
             let ok := !(Row.cb c.grams r2).fails { env with tol := Surface.maxv b.tol (relTol * (f2 + (st.sigma0 + st.sigma1) * (c.area * c.grams) / F_C_MOL).abs) }
             out := out.push (vline b "V" "dl-neutral" c.name ok qdl (-(f2 + (st.sigma0 + st.sigma1) * (c.area * c.grams) / F_C_MOL)))
-            out := out.push (vline b "T" "cd-f2" c.name (close 1e-9 (1e-9 * (f2.abs + qdlAbs) + 1e-22) u2.f (f2 + qdl)) u2.f (f2 + qdl))
+            out := out.push (vline b "T" "cd-f2" c.name (close 1e-9 (1e-9 * (f2Abs + qdlAbs) + 1e-22) u2.f (f2 + qdl)) u2.f (f2 + qdl))
           match pubPsi with
           | some v => out := out.push (vline b "T" "pub-psi" c.name (close 1e-13 1e-18 v psi0) v psi0)
           | none => pure ()
@@ -622,8 +636,11 @@ def run : IO Unit := do
       let inS := mine.filterMap fun l => match l with
         | [_, "S", n, v] => some (sh n, fh v)
         | _ => none
+      let m0 := allC.foldl (fun a l => match l with
+        | [_, "M", v] => Surface.maxv a (fh v)
+        | _ => a) 0.0
       cur := some { case := c, blk := k, db := if c == dbCase then dbs else #[], aqz := if c == zCase then zs else #[],
-                    inC := inC, inS := inS }
+                    inC := inC, inS := inS, inM0 := m0 }
     | ["E"] =>
       match cur with
       | some b =>
